@@ -13,3 +13,5 @@ def run(ctx, rep):
     from ..rules import more5
     more5.rule_info_init(ctx.mod, rep)
     driver.rule_expert_illegal(ctx.mod, rep)
+    from ..rules import more6
+    more6.rule_arg_ld(ctx.mod, rep)
